@@ -538,4 +538,17 @@ def evalModArm (m : String × Option String × Callee × List Tm × Option Strin
   | some vs => Call.decode m.2.2.1 vs
   | none => none
 
+/-- arguments of a hand-written module's wrapper, evaluated on its parameters (`timeout` is read by eco's
+`query_with_timeout` only: the other wrappers have no such parameter, and the translator refuses a variable that is not
+in scope) -/
+def evalHandWrapper (args : List Tm) (port : Option Nat) (timeout : Option Settings.Timeout) : Option (List Val) :=
+  evalArgs sem (((Env.empty.extend .address .addr).extend .port (encOpt .num port)).extend .timeoutSettings
+    (encOpt .timeout timeout)) args
+
+/-- a closed term of the tables (the macro defaults), evaluated -/
+def evalClosed (t : Option Tm) : Option Val :=
+  match t with
+  | some t => evalTm sem Env.empty t
+  | none => none
+
 end Gd.Arms
